@@ -160,15 +160,20 @@ func runRace(t *testing.T, rc *core.RunCtx) {
 	}
 	rescanQuit := make(chan struct{})
 	kinds := 4 + tp.Intn(9)
-	filterUser := false
+	filterUser := 0
 	for i := 0; i < kinds; i++ {
 		blk := chain[1+tp.Intn(n)]
-		k := tp.Intn(11)
+		k := tp.Intn(12)
+		// GetCFilter serialises on a plain mutex (16.3): the filter-fetching
+		// users of a run are either one GetCFilter loop, or one Rescan, or
+		// any number of GetUtxo requests (they share the scanner's single
+		// batch goroutine).
 		if k >= 1 && k <= 3 {
-			if filterUser {
+			if filterUser != 0 && filterUser != k || (filterUser == k && k != 2) {
 				k = 0
+			} else {
+				filterUser = k
 			}
-			filterUser = true
 		}
 		switch k {
 		case 0:
@@ -282,6 +287,22 @@ func runRace(t *testing.T, rc *core.RunCtx) {
 					}
 				}
 			})
+		case 11:
+			// several callers hammering the same few blocks: cache hits
+			// from more than one goroutine at a time
+			hot := []*chainmodel.Block{chain[1+tp.Intn(n)], chain[1+tp.Intn(n)], chain[n]}
+			for g := 0; g < 3; g++ {
+				spawn("cachehits", func() {
+					for j := 0; j < 30; j++ {
+						cs.GetBlock(hot[j%len(hot)].Hash)
+						select {
+						case <-done:
+							return
+						default:
+						}
+					}
+				})
+			}
 		case 10:
 			// the honest side reorganises and grows while everything runs
 			spawn("reorg", func() {
